@@ -75,7 +75,9 @@ func LoadCfg() Cfg {
 	return c
 }
 
-func (c Cfg) PartPath(i int) string { return filepath.Join(c.OutDir, fmt.Sprintf("part-%s-%d.json", c.Mode, i)) }
+func (c Cfg) PartPath(i int) string {
+	return filepath.Join(c.OutDir, fmt.Sprintf("part-%s-%d.json", c.Mode, i))
+}
 
 // SpawnWorkers runs this binary n times as workers and collects their partials.
 // extraEnv is added to every worker.  A worker that dies without a partial is harness
@@ -218,11 +220,11 @@ func Finish(c Cfg, level string, m Merged, rule string, extra map[string]interfa
 	}
 	wall := time.Since(start).Seconds()
 	cov := map[string]interface{}{
-		"evaluations":         m.Evaluations,
-		"distinct_nontrivial": m.Distinct,
-		"rule":                rule,
-		"samples":             m.Samples,
-		"cases":               m.Cases,
+		"evaluations":            m.Evaluations,
+		"distinct_nontrivial":    m.Distinct,
+		"rule":                   rule,
+		"samples":                m.Samples,
+		"cases":                  m.Cases,
 		"distinct_interleavings": m.Interleave,
 		"scheduler_steps_total":  m.Steps,
 		"twin_runs_identical":    m.Twins,
